@@ -25,7 +25,7 @@ echo "demo only: $A ; demo+patch: $B ; failing with patch: $FAILED"
 case "$A" in *" 0 failed") ;; *) echo "NOT CONFIRMED: demo fails without the patch"; exit 1;; esac
 case "$B" in *" 0 failed") echo "NOT CONFIRMED: demo does not fail with the patch"; exit 1;; esac
 # the only failures must be tests added by the demo
-git checkout -q -- . ; git apply "$OUT/patch$N.diff"
+git reset -q --hard; git clean -fdq -e target -e .kverif_harness; git apply "$OUT/patch$N.diff"
 run > /tmp/seedv_${PID}${N}_c.log
 C=$(summ /tmp/seedv_${PID}${N}_c.log)
 echo "patch only (existing suite): $C"
@@ -39,5 +39,5 @@ m["confirmed_by_coordinator"]={"base_commit_of_worktree":"see base_commit","cmd"
   "demo_only":sys.argv[3],"demo_plus_patch":sys.argv[4],"patch_only_existing_suite":sys.argv[5],"failing_with_patch":sys.argv[6].split()}
 json.dump(m,open(sys.argv[2],"w"),indent=1)
 P
-git checkout -q -- .
+git reset -q --hard; git clean -fdq -e target -e .kverif_harness
 echo "CONFIRMED -> $DEST"
